@@ -209,11 +209,24 @@ def run(ctx):
     ctx.sample({k: v for k, v in cfgs[len(cfgs) // 2].items()})
     rfiles = run_real(ctx, cfgs, "random")
     validate_all(ctx, rfiles, "random")
+    gfiles = None
+    if not c07:
+        # generated graphs over the block library (diamonds, rate changers, packet stages):
+        # result-level conformance with the denotation of the graph (GraphSem.tla)
+        from checks import gengraph
+        th = ctx.thorough()
+        graphs = gengraph.make(ctx, ["mt", "mtc"], 60 if th else 16, 8 if th else 4)
+        gfiles = gengraph.run(ctx, graphs, "gen")
+        # every one-timeout / one-preemption schedule of a few tiny graphs (sampled in the quick tier)
+        gengraph.systematic(ctx, None if th else 1000)
     if not ctx.violations:
         self_test(ctx, rfiles)
+        if gfiles:
+            gengraph.self_test(ctx, gfiles[0])
     quirk_demo(ctx)
     ctx.assumptions += [
-        "chains VectorSource -> AddConst* -> VectorSink over one-page-per-sample streams (capacity 1..4); sequentially consistent interleavings at scheduling-point grain",
+        "step-level model and traces: chains VectorSource -> AddConst* -> VectorSink over one-page-per-sample streams (capacity 1..4); sequentially consistent interleavings at scheduling-point grain",
+        "generated graphs (chains with Delay/Skip/RationalResampler, Tee/Add diamonds, fan-out, HdlcDeframer/VecToStream packet stages, NrziDecode/Descrambler, u8 rate changers up to 3 buffer capacities) are checked at result level only: termination, Ok, all threads exited, sinks = GraphSem denotation, on OS threads and under seeded random / sticky / starving / timeout-eager controlled schedules; 5 tiny graphs (packet stage, packet stage + VecToStream, chain, delay, diamond) additionally under all schedules with at most one forced timeout and one forced preemption (non-preemptive otherwise; sampled in the quick tier)",
         "termination of real runs is a grant budget under the controlled scheduler, never wall-clock",
         "fair scheduling is assumed for the liveness property Terminates (a waiting thread may time out and retry arbitrarily often)",
     ]
@@ -224,6 +237,11 @@ def run(ctx):
 
 def replay(ctx, path):
     vlib.build_harness()
+    with open(path) as f:
+        head = f.read(300)
+    if '"gengraph"' in head:
+        from checks import gengraph
+        return gengraph.replay(ctx, path)
     with open(path) as f:
         e0 = json.loads(f.readline())
     if e0.get("ev") == "config":
